@@ -93,6 +93,11 @@ Fixpoint h_getter (h : heap) (a : addr) (p : list bool) : result addr :=
       end
   end.
 
+(* expansion of a zero summary: child = zero_node(k); node = PairNode(child, child) *)
+Definition h_expand (k : nat) (h : heap) : addr * heap :=
+  let '(z, h0) := h_zero_node k h in
+  let '(_, h0') := h_alloc h0 (HPair z z None) in (z, h0').
+
 (* setter(expand): allocates one PairNode per path step (plus the expansion's zero nodes) and keeps
    every off-path child address *)
 Fixpoint h_setter (expand : bool) (h : heap) (a : addr) (p : list bool) (v : addr) : result (addr * heap) :=
@@ -107,8 +112,7 @@ Fixpoint h_setter (expand : bool) (h : heap) (a : addr) (p : list bool) (v : add
       | Some (HRoot rt) =>
           if expand && bytes_eqb rt (zero_hash H (length p)) then
             (* child = zero_node(depth-1); node = PairNode(child, child): one RootNode, used twice *)
-            let '(z, h0) := h_zero_node (length p') h in
-            let '(_, h0') := h_alloc h0 (HPair z z None) in     (* the expanded pair itself (then rebound) *)
+            let '(z, h0') := h_expand (length p') h in
             do x <- h_setter expand h0' z p' v;
             let '(c, h1) := x in
             Ok (h_alloc h1 (if b then HPair z c None else HPair c z None))
